@@ -21,6 +21,8 @@ pub struct FieldMeta {
     pub key: &'static str,
     pub uninit_ok: bool,
     pub tracked: bool,
+    /// ledger instances one value owns (0 plain, 1 token / Box / Option, 2 array of two tokens)
+    pub instances: usize,
     pub zst: bool,
     /// zero-size token counted per class in the ledger
     pub counted_class: u8,
